@@ -604,11 +604,19 @@ for _n in ('sin', 'cos', 'tan', 'arcsin', 'arccos', 'arctan', 'sinc', 'sinh', 'c
     UFUNC1[_n] = [2, 2, 2, 3]
 
 
-def _ckind(a):
+def _ckind(ctx, a):
     k = a.kind if isinstance(a, NArr) else z3.IntVal(INT) if is_intlike(a) and not isinstance(a, bool) else None
-    if k is None or not z3.is_int_value(simp(k)):
-        raise Unsupported('element-wise function on an operand of symbolic kind (the kind table is ground)')
-    return simp(k).as_long()
+    if k is None:
+        raise Unsupported('element-wise function on %r' % (a,))
+    k = simp(k)
+    if z3.is_int_value(k):
+        return k.as_long()
+    for v in (BOOL, INT, FLOAT):  # the kind table is ground: a symbolic kind is decided by forking over the four kinds
+        if ctx.branch(k == v):
+            return v
+    if ctx.branch(k == COMPLEX):
+        return COMPLEX
+    raise Unsupported('array kind outside bool/int/float/complex')
 
 
 def ufunc(name):
@@ -617,10 +625,10 @@ def ufunc(name):
             raise Unsupported('ufunc keywords')
         ctx.used_axioms.add('numpy element-wise functions: shape by broadcasting, result kind by the ground table pyvc/npshape.py:UFUNC1/UFUNC2 (TypeError where numpy has no loop)')
         if name in UFUNC1 and len(args) == 1:
-            k = UFUNC1[name][_ckind(args[0])]
+            k = UFUNC1[name][_ckind(ctx, args[0])]
             sh = args[0].shape
         elif name in UFUNC2 and len(args) == 2:
-            k = UFUNC2[name][_ckind(args[0])][_ckind(args[1])]
+            k = UFUNC2[name][_ckind(ctx, args[0])][_ckind(ctx, args[1])]
             sh = broadcast(ctx, args[0].shape if isinstance(args[0], NArr) else (), args[1].shape if isinstance(args[1], NArr) else ())
         else:
             raise Unsupported('numpy.%s with %d operands' % (name, len(args)))
